@@ -1047,6 +1047,9 @@ class RZILTransformer(Transformer):
             if isinstance(items[0], list) and isinstance(items[1], Effect):
                 # The last statement belongs to it as well.
                 return items[0] + [items[1]]
+            elif isinstance(items[0], list) and isinstance(items[1], list):
+                # The last statement is a compound statement itself.
+                return items[0] + items[1]
             return items[0]
         p: Pure = items[1]
         e: Effect = items[0]
